@@ -330,6 +330,20 @@ func sampleJSON(r *rand.Rand, p *synth.Project, t synth.T, depth int) any {
 				if f.Type.Base().K == "named" && f.Type.Base().Name == st.Name {
 					continue // self reference: leave out (nil)
 				}
+				if f.Validate != "" && f.Type.K == "prim" && !strings.HasSuffix(f.Validate, "_enum") {
+					// a validated primitive field gets a value that passes its validator
+					if vw, ok := validWire(r, f.Validate, f.Type.Name, "typical", "body"); ok {
+						if js, ok2 := primTyped(f.Type.Name, vw); ok2 {
+							var x any
+							d := json.NewDecoder(strings.NewReader(js))
+							d.UseNumber()
+							if d.Decode(&x) == nil {
+								obj[w] = x
+								continue
+							}
+						}
+					}
+				}
 				obj[w] = sampleJSON(r, p, f.Type, depth+1)
 			}
 			return obj
@@ -364,8 +378,9 @@ type reqPlan struct {
 	IllTyped     string // Go name of a parameter to send with an unconvertible value
 	Violate      string // Go name of a parameter to send with a validator-violating value
 	BadBody      bool
-	OmitOptional bool // leave out every optional (pointer, no required) parameter
-	Decoys       bool // repeat every parameter's wire name with a decoy value in the locations it is NOT declared in
+	OmitOptional bool   // leave out every optional (pointer, no required) parameter
+	BadEnum      string // Go name of an enum-typed parameter to send with a value that is no member
+	Decoys       bool   // repeat every parameter's wire name with a decoy value in the locations it is NOT declared in
 }
 
 func isRequired(pr synth.Param) bool { return pr.Required() }
@@ -449,6 +464,28 @@ func buildRequest(r *rand.Rand, p *synth.Project, c *synth.Controller, m *synth.
 				}
 				br.Expect422 = true
 				why = append(why, "ill-typed "+pr.In+" "+pr.GoName+"="+w)
+			case plan.BadEnum == pr.GoName:
+				e := p.Enum(pr.Type.Base().Pkg, pr.Type.Base().Name)
+				if e == nil || pr.Type.Base().K != "named" || isSlice {
+					return br, false
+				}
+				switch {
+				case e.Base == "string":
+					w = "no-such-member"
+				case e.Base == "bool":
+					return br, false
+				case strings.HasPrefix(e.Base, "float"):
+					w = "123.25"
+				default:
+					w = "101" // fits every integer width; the generated constants never take this value
+				}
+				for _, v := range e.Values {
+					if v.Text == w {
+						return br, false
+					}
+				}
+				br.Expect422 = true
+				why = append(why, "value "+w+" is no member of enum "+e.Name+" ("+pr.In+" "+pr.GoName+")")
 			case plan.Violate == pr.GoName:
 				vw, ok := violatingWire(pr.Validate, prim)
 				if !ok || p.KindOf(pr.Type.Base()) == "enum" {
@@ -476,7 +513,7 @@ func buildRequest(r *rand.Rand, p *synth.Project, c *synth.Controller, m *synth.
 				jsons = append(jsons, js)
 			}
 		}
-		if !br.Expect422 || (plan.IllTyped != pr.GoName && plan.Violate != pr.GoName) {
+		if !br.Expect422 || (plan.IllTyped != pr.GoName && plan.Violate != pr.GoName && plan.BadEnum != pr.GoName) {
 			js := ""
 			if isSlice {
 				js = "[" + strings.Join(jsons, ",") + "]"
@@ -558,6 +595,10 @@ func buildRequest(r *rand.Rand, p *synth.Project, c *synth.Controller, m *synth.
 	}
 	if strings.Contains(path, "{") {
 		return br, false
+	}
+	if !strings.HasPrefix(path, "/") {
+		// a request target always starts with a slash, whether or not the annotations spelled one
+		path = "/" + path
 	}
 	br.Req.Target = path
 	if len(q) > 0 {
